@@ -1,16 +1,17 @@
-"""C16 — normalisation keeps character positions (KyteaFullwidthFilter); [tantivy token stream: see jobs 'stream/*' when built]."""
+"""C16 — normalisation keeps character positions (KyteaFullwidthFilter); the Tantivy token stream tiles the original text (jobs stream/*)."""
 import re
 import z3
 
 from values import *
 from engine import b_and
+from values import PathEnd
 import hlib
 import sentlib as S
 from models.m_core import bytes_eq
 from models.m_str import decode_char
 
 ID = 'C16'
-PROGRAMS = {'core': dict(crate='vaporetto', features=['train', 'kytea'], extra=[dict(crate='vaporetto_rules')])}
+PROGRAMS = {'core': dict(crate='vaporetto', features=['train', 'kytea'], extra=[dict(crate='vaporetto_rules'), dict(crate='vaporetto_tantivy')])}
 UNIT_CAP = 100
 BUDGET_S = {'quick': 200, 'thorough': 1800}
 BOUNDS = {
@@ -25,7 +26,8 @@ EXPLANATION = ('KyteaFullwidthFilter::filter (MIR of vaporetto_rules) is execute
                'again changes nothing (idempotence), and that a character is changed only if it is a key of the table read from the current source; short '
                'strings check that the number of characters is preserved.')
 ASSUMPTIONS = ['std String/char models of mirsym']
-MUST_REACH = ['one output character per input character', 'normaliser is idempotent', 'only table keys change', 'cover:default-arm', 'cover:mapped-arm']
+MUST_REACH = ['one output character per input character', 'normaliser is idempotent', 'only table keys change', 'cover:default-arm', 'cover:mapped-arm',
+              'tokens tile the original text and break where the core pipeline breaks', 'empty text yields no token']
 
 
 def table_from_source():
@@ -43,7 +45,98 @@ def jobs(tier, seed):
     js = [{'name': 'char/all-scalars', 'kind': 'char'}]
     for n in range(0, (3 if tier == 'quick' else 4) + 1):
         js.append({'name': 'string/%d' % n, 'kind': 'string', 'n': n})
+    for n in range(0, (3 if tier == 'quick' else 4) + 1):
+        for wl in range(0, 3):
+            if tier == 'quick' and wl == 2 and n > 2:
+                continue
+            js.append({'name': 'stream/n%d/ws%d' % (n, wl), 'kind': 'stream', 'n': n, 'wl': wl})
+    js.sort(key=lambda j: -(j.get('n', 0) + j.get('wl', 0)))
     return js
+
+
+# ---------------------------------------------------------------------------------------------
+# Tantivy token stream
+STREAM_SHAPE = {'cw': 2, 'tw': 1, 'char': ['ａ', 'ｂａ'], 'type': ['R']}     # patterns over NORMALISED characters (full-width a, b)
+WS_LETTERS = 'DRHTKOG'
+
+
+def build_stream_predictor(e, prog):
+    import predlib as P
+    ms = P.fill_model(e, STREAM_SHAPE)
+    model = P.build_model(e, prog, ms)
+    r = P.new_predictor(e, prog, model, False)
+    if r.var != 'Ok':
+        raise Panic('Predictor::new rejected a well-formed model')
+    return ms, r.f[0].v
+
+
+def harness_stream(e, prog, job, st):
+    import predlib as P
+    from models.m_str import char_width
+    ms, pred = e.memo('stream-pred', lambda: build_stream_predictor(e, prog))
+    st['ms'] = ms
+    # wsconst string: symbolic letters over the documented alphabet
+    letters = [WS_LETTERS[e.choose(len(WS_LETTERS))] for _ in range(job['wl'])]
+    st['ws'] = ''.join(letters)
+    rf = e.run(e.prog.by_path['build_post_filters'][-1], [mk_strref(st['ws'])])
+    if rf.var != 'Ok':
+        raise Panic('build_post_filters rejected a valid wsconst string')
+    tok = P.mk_struct(prog, 'VaporettoTokenizer', predictor=Opaque('box', cell=Cell(pred), rt='Arc'), prefilter=Agg([], ty='KyteaFullwidthFilter'), postfilters=rf.f[0].v)
+    tcell = Cell(tok)
+    # text classes: two table keys, CR, LF, and "any other value that is not a key of the normaliser table" (the table itself is covered for every
+    # scalar value by the char/all-scalars job; excluding the keys here keeps the 96-arm match from forking on every character)
+    ss = S.sym_string(e, 'x', job['n'], 'ab\r\n', exclude='\0' + ''.join(k for k in table_from_source() if k not in 'ab'))
+    st['s'] = ss
+    sv = hlib.build_str(e, ss.chars)
+    text = hlib.strref_of(sv)
+    stream = e.run(hlib.fn(prog, 'VaporettoTokenizer', 'token_stream', 'Tokenizer'), [Ref(tcell), text])
+    scell = Cell(stream)
+    toks = []
+    guard = 0
+    while True:
+        r = e.run(hlib.fn(prog, 'VaporettoTokenStream', 'advance', 'TokenStream'), [Ref(scell)])
+        if not e.truth(r):
+            break
+        t = e.run(hlib.fn(prog, 'VaporettoTokenStream', 'token', 'TokenStream'), [Ref(scell)])
+        tv = t.c.v
+        toks.append((tv.f[0].v, tv.f[1].v, tv.f[2].v, list(tv.f[3].v.b)))
+        guard += 1
+        if guard > job['n'] + 2:
+            raise Panic('token stream yields more tokens than characters')
+    n = job['n']
+    if n == 0:
+        e.check(len(toks) == 0, 'empty text yields no token')
+        return
+    # the core pipeline, run in the same path: normalise -> predict -> line-break filter -> configured filters
+    norm = run_filter(e, prog, Str(list(sv.b)))
+    rs = S.new_sentence(e, prog, 'raw', norm)
+    cell = Cell(rs.f[0].v)
+    S.call(e, prog, 'Predictor', 'predict', [Ref(Cell(pred)), Ref(cell)])
+    e.grapheme_choices = None
+    e.run(hlib.fn(prog, 'SplitLinebreaksFilter', 'filter', 'SentenceFilter'), [Ref(Cell(Agg([], ty='SplitLinebreaksFilter'))), Ref(cell)])
+    for ch in letters:
+        if ch == 'G':
+            raise PathEnd()     # the grapheme oracle is nondeterministic: its answers in the two runs need not agree (stream-only properties are checked below for G in a separate job kind)
+        filt = P.mk_struct(prog, 'KyteaWsConstFilter', char_type=Int(P.TYPE_CODE[ch], 8))
+        e.run(hlib.fn(prog, 'KyteaWsConstFilter', 'filter', 'SentenceFilter'), [Ref(Cell(filt)), Ref(cell)])
+    labels = S.seq_vals(S.call(e, prog, 'Sentence', 'boundaries', [Ref(cell)]))
+    L = [e.concretize(l) for l in labels]
+    offs = [0]
+    for c in ss.chars:
+        offs.append(offs[-1] + char_width(e, c))
+    ends = [offs[i + 1] for i in range(n - 1) if L[i] == 1] + [offs[n]]
+    okk = len(toks) == len(ends)
+    prev = 0
+    if okk:
+        for k, ((a, b, pos, tb), en) in enumerate(zip(toks, ends)):
+            okk = b_and(okk, a.conc() == prev and b.conc() == en and pos.conc() == k)
+            okk = b_and(okk, bytes_eq(e, tb, sv.b[prev:en]))
+            prev = en
+    e.check(okk, 'tokens tile the original text and break where the core pipeline breaks')
+
+
+def harness_stream_g(e, prog, job, st):
+    pass
 
 
 def run_filter(e, prog, sv):
@@ -57,6 +150,8 @@ def make(e, progs, job):
     tab = table_from_source()
 
     def harness(e):
+        if job['kind'] == 'stream':
+            return harness_stream(e, prog, job, st)
         if job['kind'] == 'char':
             c = hlib.sym_char(e, 'c')
             chars = [c]
@@ -97,10 +192,20 @@ def make(e, progs, job):
             e.check(okk, 'only table keys change')
 
     def describe(m):
+        if job['kind'] == 'stream':
+            import predlib as P
+            text = st['s'].py(m) if 's' in st else ''
+            mj = P.model_json(st['ms'], m) if 'ms' in st else None
+            return {'property': ID, 'job': job, 'text': text, 'wsconst': st.get('ws', ''), 'model': mj,
+                    'ops': [{'op': 'model', 'id': 'm', 'data': mj}, {'op': 'tantivy_stream', 'model': 'm', 'wsconst': st.get('ws', ''), 'text': text}]}
         text = hlib.model_str(m, st['chars'])
         return {'property': ID, 'job': job, 'text': text, 'ops': [{'op': 'fullwidth', 'text': text}]}
 
     def sample():
+        if job['kind'] == 'stream':
+            if e.solver is None or 's' not in st or e._check() != z3.sat:
+                return None
+            return {'job': job['name'], 'text': st['s'].py(e.solver.model()), 'wsconst': st.get('ws')}
         if e.solver is None or 'chars' not in st or e._check() != z3.sat:
             return None
         return {'job': job['name'], 'text': hlib.model_str(e.solver.model(), st['chars'])}
